@@ -398,6 +398,9 @@ def _composite(case, ctx, labels, x64, u):
     if per_cols:
         x = _periodic_points(case, x, per_cols)
     bounds = {p: ([-np.inf, np.inf] if kinds[i] == "free" else [lo[i], hi[i]]) for i, p in enumerate(params)}
+    if case.get("order_seed", 0) % 2:  # the mapping may list the names in another order than `parameters`
+        items = list(bounds.items())
+        bounds = dict(items[i] for i in np.random.default_rng(case["order_seed"]).permutation(len(items)))
     kw = dict(parameters=params, prior_bounds=bounds, bounded_to_unbounded=case["b2u"],
               bounded_transform=case["bounded_transform"], affine_transform=case["affine"], xp=xp, eps=case["eps_clip"], dtype=dt)
     try:
